@@ -151,6 +151,7 @@ func (n *LNode) Step(e Event, raw *interfaces.ConsensusRawMessage, info ref.Info
 	}
 	preOuts, preCommits, preAll, preVals, preReqs := len(n.Comm.Outs), len(n.Blocks), len(n.Store.All), len(n.BU.Vals), len(n.BU.Reqs)
 	preSeq := len(n.seq)
+	preRounds := len(n.Rounds)
 	preView := uint64(n.V.S.View())
 	preHeight := uint64(n.V.S.Height())
 	prePrep, preComm, preLatest := n.flags()
@@ -230,6 +231,19 @@ func (n *LNode) Step(e Event, raw *interfaces.ConsensusRawMessage, info ref.Info
 	}
 	bad := func(prop, clause, format string, a ...interface{}) {
 		obs.Viol = append(obs.Viol, Violation{Prop: prop, Clause: clause, Detail: fmt.Sprintf("n%d: ", n.Idx) + fmt.Sprintf(format, a...)})
+	}
+
+	// ---- C13: the heights handed to the new-round callback strictly increase (also when cached messages of the next
+	// height decide it inside the step that starts it)
+	for k := preRounds; k < len(n.Rounds); k++ {
+		if k > 0 {
+			var a, b uint64
+			fmt.Sscanf(n.Rounds[k-1], "%d/", &a)
+			fmt.Sscanf(n.Rounds[k], "%d/", &b)
+			if b <= a {
+				bad("C13", "round-heights-not-increasing", "new-round callback heights %v", n.Rounds)
+			}
+		}
 	}
 
 	// ---- outputs and commits, in the order they happened (a step may commit a height and go on in the next one)
